@@ -624,7 +624,8 @@ def run(ctx):
     ctx.attempt(C03.check_reader_state, ctx, db)
     from . import C07   # FlexPath::to_gds starts with remove_overlapping_points: re-saving a loaded path must not merge grid-adjacent vertices
     ctx.attempt(C07.check_bookkeeping, ctx, db)# element-scoped reader state (WIDTH, ...) does not leak into the next element
-    from . import C17 as _C17
+    from . import C17 as _C17, C19 as _C19
+    ctx.attempt(_C19.check_gds_real, ctx, db)          # the 8-byte real of UNITS / MAG / ANGLE: encoder o decoder on every power of two, sign, zero
     ctx.attempt(_C17.check_header_bytes, ctx, db)     # the bytes around the cells (HEADER ... UNITS, ENDLIB) of both writers, against the format
 
 
